@@ -191,8 +191,28 @@ events:
 		return nil
 	}
 	nA := 0
+	ended := false // the request stream of the connection has ended (events "H" / "X")
 	for ei, ev := range c.Events {
+		if ended && ev != "R" && ev != "U" {
+			continue // nothing more can be sent on this connection
+		}
 		switch {
+		case ev == "H" || ev == "X":
+			// the server stops receiving while its sending direction stays usable:
+			// the peer half-closes (H), or sends a size field above msize (X).
+			// Flushes that are waiting must go on waiting for their request.
+			if ev == "H" {
+				p.s.C2S.CloseWrite()
+			} else {
+				bad := refcodec.Encode(withTag(tStatfs(0), 0x7e7e))
+				bad[0], bad[1], bad[2], bad[3] = 0xff, 0xff, 0xff, 0x7f
+				p.s.Send(bad)
+			}
+			ended = true
+			time.Sleep(15 * time.Millisecond)
+			if f := checkEarly("after the request stream of the connection had ended"); f != nil {
+				return f
+			}
 		case ev == "R":
 			if !released {
 				if f := checkEarly("before the release"); f != nil {
@@ -350,7 +370,11 @@ func genFlushCase(rt *rapid.T) flushCase {
 				rel = true
 			}
 		case 4:
-			c.Events = append(c.Events, "U")
+			if rapid.IntRange(0, 2).Draw(rt, "endk") == 0 {
+				c.Events = append(c.Events, rapid.SampledFrom([]string{"H", "X"}).Draw(rt, "end"))
+			} else {
+				c.Events = append(c.Events, "U")
+			}
 		case 5:
 			c.Events = append(c.Events, "I")
 		case 6:
@@ -378,6 +402,7 @@ func TestC14(t *testing.T) {
 		evsets := [][]string{
 			{"F1:t", "R"}, {"F1:t", "U", "R"}, {"F1:t", "F2:t", "R"}, {"F1:t", "F2:f1", "R"}, {"F1:t", "F2:f1", "F3:f2", "R"},
 			{"F1:t", "O", "I", "A", "R"}, {"F1:t", "R", "F2:t"}, {"R", "F1:t"}, {"O"}, {"I"}, {"A"}, {"F1:t"},
+			{"F1:t", "H", "R"}, {"F1:t", "X", "R"}, {"F1:t", "F2:f1", "H", "U", "R"},
 		}
 		for _, tg := range flushTargets {
 			for hold := 1; hold <= 3; hold++ {
